@@ -1,8 +1,15 @@
+/-
+  C03 helper lemmas, part 2: composite types. The decidable schema predicate `specOK` / `tyParamsOK`, the value predicate
+  `regular`, and `encode_eq_spec`: for every schema passing `specOK`, whatever bits `encField` produces for a regular
+  value are the bits `Spec.X691.encode` prescribes (SEQUENCE with OPTIONAL bitmap and open-type components, SEQUENCE OF,
+  CHOICE, open types; recursion on the fuel both encoders share). `nonEmptyEnc_sound`: an open type's content is never
+  empty. Corollaries `encode_refuses`, `marshal_eq_spec`, `marshal_refuses`.
+-/
 import Stgutg.Proofs.AperSpec
 
 namespace Stgutg.Proofs.AperSpec
 open Stgutg Stgutg.Aper Stgutg.Proofs.Bits
-open Stgutg.Spec.X691 (bitsFor octetsFor pad constrainedWholeNumber lengthDeterminant twosComplement octetsForSigned
+open Stgutg.Spec.X691 (bitsFor octetsFor pad constrainedWholeNumber lengthDeterminant lengthAndItems twosComplement octetsForSigned
   integer enumerated sizeConstraint bitString octetString)
 
 /-! ## What must hold of the schema (decidable, closed for `Gen.Ngap.schema` by the kernel) -/
@@ -77,27 +84,24 @@ def tyParamsOK (env : Env) : Ty → Params → Bool
 def specOK (env : Env) : Bool :=
   env.all (fun sd => sd.fields.all (fun fd => tyParamsOK env fd.ty fd.params))
 
-/-! ## What must hold of the value (its Go representation is regular, no length reaches 16384) -/
+/-! ## What must hold of the value (its Go representation is regular) -/
 
 def isNilV : Val → Bool
   | .nil => true
   | _ => false
 
-/-- `regular env fuel ty ot v` (`ot`: the type is used as an open type):
+/-- `regular env fuel ty ot v` (`ot`: the type is used as an open type; kept for the shape of the recursion):
     * INTEGER values are int64;
     * a BIT STRING's `Bytes` holds exactly ⌈BitLength/8⌉ octets;
-    * strings are shorter than 16384 units (unfragmented);
-    * in a CHOICE value only the selected alternative is set;
-    * the content of an open type is shorter than 16384 octets (unfragmented). -/
+    * in a CHOICE value only the selected alternative is set.
+    (No bound on lengths: strings and open types of 16K items or more are fragmented, X.691 11.9.3.8.) -/
 def regular (env : Env) : Nat → Ty → Bool → Val → Bool
   | 0, _, _, _ => true
   | fuel + 1, ty, ot, v =>
     match ty, v with
     | .ptr t, .ptr v' => regular env fuel t ot v'
     | .int, .int n => decide (-(2 ^ 63) ≤ n) && decide (n < 2 ^ 63)
-    | .bits, .bits bytes len => decide (bytes.length = (len + 7) / 8) && decide (len < 16384)
-    | .octs, .octs b => decide (b.length < 16384)
-    | .str, .str b => decide (b.length < 16384)
+    | .bits, .bits bytes len => decide (bytes.length = (len + 7) / 8)
     | .slice t, .slice vs => vs.all (fun e => regular env fuel t ot e)
     | .struct id, .struct fs =>
       match env[id]? with
@@ -108,13 +112,7 @@ def regular (env : Env) : Nat → Ty → Bool → Val → Bool
           | .int p :: alts =>
             (alts.zipIdx.all fun (a, i) => i + 1 = p.toNat || (match a with | .nil => true | _ => false)) &&
             (match sd.fields[p.toNat]?, fs[p.toNat]? with
-             | some fd, some alt =>
-               regular env fuel fd.ty fd.params.openType alt &&
-               (if ot then
-                  match encField env fuel 0 fd.ty fd.params alt with
-                  | .ok inner => decide ((inner.length + 7) / 8 < 16384)
-                  | .error _ => true
-                else true)
+             | some fd, some alt => regular env fuel fd.ty fd.params.openType alt
              | _, _ => true)
           | _ => true
         else
@@ -588,36 +586,22 @@ theorem sliceHeader_fwd (params : Params) (n pos1 : Nat) (pre : Bits) (lb ub sr 
 theorem padded_length (n : Nat) : n + (alignBits n).length = 8 * ((n + 7) / 8) := by
   rw [alignBits_length]; omega
 
-/-- 11.2 open type: a non-empty content shorter than 16384 octets, padded to whole octets behind a general length -/
-theorem openType_fwd (pos1 : Nat) (inner b : Bits) (hne : inner ≠ []) (hlen : (inner.length + 7) / 8 < 16384)
+/-- 11.2 open type: a non-empty content, padded to whole octets, behind a general length (fragmented from 16K octets on) -/
+theorem openType_fwd (pos1 : Nat) (inner b : Bits) (hne : inner ≠ [])
     (h : encOpenType pos1 inner = .ok b) :
-    ∃ l, lengthDeterminant pos1 ((inner ++ pad inner.length).length / 8) 0 none = some l ∧
-      b = l ++ pad (pos1 + l.length) ++ (inner ++ pad inner.length) := by
+    b = lengthAndItems 8 ((inner ++ pad inner.length).length / 8 / 16384 + 1) pos1
+          ((inner ++ pad inner.length).length / 8) (inner ++ pad inner.length) := by
   unfold encOpenType at h
   dsimp only at h
   have hpl : (inner ++ alignBits inner.length).length = 8 * ((inner.length + 7) / 8) := by
     rw [List.length_append]; exact padded_length _
-  have hpos : 0 < inner.length := by
-    cases inner with
-    | nil => exact absurd rfl hne
-    | cons x xs => simp
-  rw [fragLoop_small 8 (-1) 0 _ _ _ _ hlen] at h
-  cases hal : appendLength pos1 (-1) ((inner.length + 7) / 8) with
-  | error e => rw [hal] at h; simp at h
-  | ok l =>
-    rw [hal] at h
-    dsimp only at h
-    have h0 : ¬ ((inner.length + 7) / 8 + 0 = 0) := by omega
-    simp only [h0, if_false, Except.ok.injEq] at h
-    have htake : (inner ++ alignBits inner.length).take (((inner.length + 7) / 8 + 0) * 8) = inner ++ alignBits inner.length := by
-      rw [List.take_of_length_le]; omega
-    rw [htake] at h
-    refine ⟨l, ?_, ?_⟩
-    · rw [pad_eq, hpl]
-      have e : 8 * ((inner.length + 7) / 8) / 8 = (inner.length + 7) / 8 := by omega
-      rw [e]
-      exact length_fwd_unc pos1 (-1) _ 0 none l hlen (by omega) (by simp) hal
-    · rw [← h, pad_eq, pad_eq]
+  have e : (inner ++ pad inner.length).length / 8 = (inner.length + 7) / 8 := by
+    rw [pad_eq, hpl]; omega
+  rw [e, pad_eq]
+  rw [fragLoop_unc 8 (by decide) ((inner.length + 7) / 8 / 16384 + 1) pos1 ((inner.length + 7) / 8)
+    (inner ++ alignBits inner.length) (by rw [hpl]; omega) (Nat.le_refl _)] at h
+  simp only [Except.ok.injEq] at h
+  exact h.symm
 
 /-- text of the SEQUENCE branch of `Spec.X691.encode` -/
 def specSeq (enc : Nat → Ty → Params → Val → Option Bits) (gov : Ty → Val → Option Int) (sd : StructDef)
@@ -649,9 +633,7 @@ def specChoice (enc : Nat → Ty → Params → Val → Option Bits) (sd : Struc
             | none => none
             | some inner =>
               let octets := if inner.isEmpty then List.replicate 8 false else inner ++ pad inner.length
-              match lengthDeterminant pos1 (octets.length / 8) 0 none with
-              | none => none
-              | some l => some (pre ++ l ++ pad (pos1 + l.length) ++ octets)
+              some (pre ++ lengthAndItems 8 (octets.length / 8 / 16384 + 1) pos1 (octets.length / 8) octets)
         else
           match params.valueUB with
           | some ub =>
@@ -729,25 +711,19 @@ theorem encSeq_fwd (env : Env) (fuel : Nat)
           simp
 
 /-- the value-side condition on a CHOICE value (text of the CHOICE branch of `regular`) -/
-def regChoice (env : Env) (fuel : Nat) (sd : StructDef) (ot : Bool) (fs : List Val) : Bool :=
+def regChoice (env : Env) (fuel : Nat) (sd : StructDef) (fs : List Val) : Bool :=
   match fs with
   | .int p :: alts =>
     (alts.zipIdx.all fun (a, i) => i + 1 = p.toNat || (match a with | .nil => true | _ => false)) &&
     (match sd.fields[p.toNat]?, fs[p.toNat]? with
-     | some fd, some alt =>
-       regular env fuel fd.ty fd.params.openType alt &&
-       (if ot then
-          match encField env fuel 0 fd.ty fd.params alt with
-          | .ok inner => decide ((inner.length + 7) / 8 < 16384)
-          | .error _ => true
-        else true)
+     | some fd, some alt => regular env fuel fd.ty fd.params.openType alt
      | _, _ => true)
   | _ => true
 
 theorem regular_struct (env : Env) (fuel id : Nat) (ot : Bool) (fs : List Val) (sd : StructDef)
     (hsd : env[id]? = some sd) :
     regular env (fuel + 1) (.struct id) ot (.struct fs) =
-      if isChoice sd then regChoice env fuel sd ot fs else regularFields env fuel sd.fields fs := by
+      if isChoice sd then regChoice env fuel sd fs else regularFields env fuel sd.fields fs := by
   simp only [regular, hsd]
   rfl
 
@@ -786,7 +762,7 @@ theorem encChoice_fwd (env : Env) (fuel : Nat)
     (hne : params.openType = true → ∀ fd ∈ sd.fields.tail, ∀ alt inner,
       encField env fuel 0 fd.ty fd.params alt = .ok inner → inner ≠ [])
     (hok : choiceOK env sd params = true)
-    (hreg : regChoice env fuel sd params.openType fs = true)
+    (hreg : regChoice env fuel sd fs = true)
     (h : encChoice (encField env fuel) sd params pos1 fs = .ok body) :
     specChoice (Spec.X691.encode env fuel) sd params pre pos1 fs = some (pre ++ body) := by
   unfold encChoice at h
@@ -801,7 +777,7 @@ theorem encChoice_fwd (env : Env) (fuel : Nat)
         split at h
         · rename_i fd alt hfd halt
           simp only [regChoice, hfd, halt, Bool.and_eq_true] at hreg
-          obtain ⟨hnil, hregalt, hinner⟩ := hreg
+          obtain ⟨hnil, hregalt⟩ := hreg
           have hfdmem : fd ∈ sd.fields := List.mem_of_getElem? hfd
           have hfdok := hfields fd hfdmem
           unfold specChoice
@@ -809,7 +785,7 @@ theorem encChoice_fwd (env : Env) (fuel : Nat)
           have c1 : ¬ (p < 1 ∨ p.toNat > sd.fields.length - 1) := by omega
           simp only [c1, if_false, hfd, halt]
           by_cases hot : params.openType = true
-          · simp only [hot, if_true] at h hinner ⊢
+          · simp only [hot, if_true] at h ⊢
             cases hrv : params.refValue with
             | none => rw [hrv] at h; simp [err] at h
             | some rv =>
@@ -826,9 +802,8 @@ theorem encChoice_fwd (env : Env) (fuel : Nat)
                 cases hin : encField env fuel 0 fd.ty fd.params alt with
                 | error e => rw [hin] at h; simp at h
                 | ok inner =>
-                  rw [hin] at h hinner
+                  rw [hin] at h
                   dsimp only at h
-                  simp only [decide_eq_true_eq] at hinner
                   rw [H 0 fd.ty fd.params alt inner hfdok hregalt hin]
                   dsimp only
                   have hinne : inner ≠ [] :=
@@ -838,11 +813,7 @@ theorem encChoice_fwd (env : Env) (fuel : Nat)
                     | nil => exact absurd rfl hinne
                     | cons x xs => rfl
                   simp only [hemp, Bool.false_eq_true, if_false]
-                  obtain ⟨l, hl, hb⟩ := openType_fwd pos1 inner body hinne hinner h
-                  rw [hl]
-                  dsimp only
-                  rw [hb]
-                  simp only [List.append_assoc]
+                  rw [openType_fwd pos1 inner body hinne h]
                   split
                   · rename_i hc; exact absurd hnil hc
                   · rfl
@@ -1021,7 +992,7 @@ theorem fragLoop_nonempty (unit : Nat) (sr : Int) (lb fuel pos raw : Nat) (paylo
     (h : fragLoop unit sr lb (fuel + 1) pos raw payload = .ok b) : b ≠ [] := by
   unfold fragLoop at h
   dsimp only at h
-  generalize (if raw > 65536 then 65536 else if raw ≥ 16384 then raw &&& 0xc000 else raw) = part at h
+  generalize (if raw ≥ 65536 then 65536 else if raw ≥ 16384 then raw &&& 0xc000 else raw) = part at h
   cases hl : appendLength pos sr part with
   | error e => rw [hl] at h; simp at h
   | ok lenBits =>
@@ -1468,22 +1439,20 @@ theorem encode_eq_spec (env : Env) (hwf : specOK env = true) :
       rename_i bytes len
       simp only [encField] at h
       simp only [Spec.X691.encode]
-      simp only [regular, Bool.and_eq_true, decide_eq_true_eq] at hreg
+      simp only [regular, decide_eq_true_eq] at hreg
       have : ¬ bytes.length ≠ (len + 7) / 8 := by omega
       simp only [this, if_false]
-      exact bit_string_fwd pos bytes len _ _ _ bits hok hreg.2 h
+      exact bit_string_fwd pos bytes len _ _ _ bits hok h
     · -- OCTET STRING
       rename_i b
       simp only [encField] at h
       simp only [Spec.X691.encode]
-      simp only [regular, decide_eq_true_eq] at hreg
-      exact octet_string_fwd pos b _ _ _ bits hok hreg h
+      exact octet_string_fwd pos b _ _ _ bits hok h
     · -- PrintableString
       rename_i b
       simp only [encField] at h
       simp only [Spec.X691.encode]
-      simp only [regular, decide_eq_true_eq] at hreg
-      exact octet_string_fwd pos b _ _ _ bits hok hreg h
+      exact octet_string_fwd pos b _ _ _ bits hok h
     · -- BOOLEAN
       rename_i b
       simp only [encField, Except.ok.injEq] at h
